@@ -47,6 +47,8 @@ typedef struct SimKnobs {
 } SimKnobs;
 extern SimKnobs K;
 extern bool sim_time_capped;
+extern int sim_stack_scribble;
+extern size_t sim_stack_shift;
 extern int sim_stack_junk;   /* -1 off, else byte used to pre-fill the top 2 MiB of every new task stack */
 
 /* ---------------- images ---------------- */
